@@ -29,6 +29,7 @@ import (
 	"github.com/openbao/openbao/sdk/v2/framework"
 	"github.com/openbao/openbao/sdk/v2/logical"
 	"github.com/openbao/openbao/v2/internal/helper/namespace"
+	"github.com/openbao/openbao/v2/internal/helper/pgpkeys"
 	"github.com/openbao/openbao/v2/internal/vault/routing"
 	"github.com/openbao/openbao/v2/internal/zzverif/vh"
 )
@@ -128,6 +129,7 @@ type c12Case struct {
 	// sealable namespaces whose own key shares were not supplied since a seal (of them or of an ancestor) last covered them
 	pending map[int]bool
 	cubbyNs     map[string]int // cubbyhole mount uuid -> ns ordinal
+	nrot        int            // namespace rotations so far
 }
 
 func c12Class(resp *logical.Response, err error) string {
@@ -295,8 +297,15 @@ func (k *c12Case) nsRotate(i int) {
 	}
 	k.p.Tag(0)
 	k.p.StartRecording()
+	// every other rotation keeps a backup of the (PGP-encrypted) shares
+	k.nrot++
+	backup := k.nrot%2 == 0
+	conf := &SealConfig{Type: "shamir", SecretShares: 1, SecretThreshold: 1}
+	if backup {
+		conf.PGPKeys, conf.Backup = []string{pgpkeys.TestPubKey1}, true
+	}
 	res := vh.Catch(func() string {
-		if _, err := k.c.sealManager.InitRotation(ctx, ns, &SealConfig{Type: "shamir", SecretShares: 1, SecretThreshold: 1}, false); err != nil {
+		if _, err := k.c.sealManager.InitRotation(ctx, ns, conf, false); err != nil {
 			return "err:init"
 		}
 		rot := k.c.sealManager.RotationConfig(ns.UUID, false)
@@ -306,6 +315,17 @@ func (k *c12Case) nsRotate(i int) {
 		rr, err := k.c.sealManager.UpdateRotation(ctx, ns, share, rot.Nonce, false)
 		if err != nil || rr == nil || len(rr.SecretShares) != 1 {
 			return "err:update"
+		}
+		if backup {
+			// the share comes back encrypted for the operator's PGP key
+			plain, err := pgpkeys.DecryptBytes(hex.EncodeToString(rr.SecretShares[0]), pgpkeys.TestPrivKey1)
+			if err != nil {
+				if plain, err = pgpkeys.DecryptBytes(base64.StdEncoding.EncodeToString(rr.SecretShares[0]), pgpkeys.TestPrivKey1); err != nil {
+					return "err:pgp"
+				}
+			}
+			n.share = plain.String()
+			return "ok"
 		}
 		n.share = hex.EncodeToString(rr.SecretShares[0])
 		return "ok"
@@ -334,7 +354,11 @@ func (k *c12Case) nsRotate(i int) {
 		out = vh.HexS(strings.Join(outside, ","))
 		viol = "!VIOL:the root-key rotation of namespace " + n.path + " wrote outside the namespace's storage prefix: " + strings.Join(outside, ", ") + "#namespace-rotation-wrote-outside-namespace"
 	}
-	k.out.Op(res+"|"+out+"|"+strings.Join(inside, ",")+viol, "nsrotate", vh.HexS(n.path))
+	opn := "nsrotate"
+	if backup {
+		opn = "nsrotatebk"
+	}
+	k.out.Op(res+"|"+out+"|"+strings.Join(inside, ",")+viol, opn, vh.HexS(n.path))
 }
 
 func (k *c12Case) setSeal(i int, seal bool) {
